@@ -37,6 +37,9 @@ extern "C" fn write_cb(buf: *const u8, len: u32, ctx: *mut c_void, written: *mut
         return 4; // EINTR: "try again"
     }
     let n = (k as u32).min(len);
+    if c.data.len() > (256 << 20) {
+        return 28; // ENOSPC: the caller's disk is full (the archives of the behaviours are a few KiB)
+    }
     c.data.extend_from_slice(unsafe { std::slice::from_raw_parts(buf, n as usize) });
     unsafe { *written = n };
     0
